@@ -207,7 +207,7 @@ def rand_cfg(rng, now, h, huge=0.15):
 def rand_history(rng, now, big=False):
     """Entry list: mostly chronological, sometimes with equal / backwards timestamps and boundary ages."""
     n = rng.choice([0, 1, 1, 2, 3, 4, 5, 6, 8, 12])
-    mode = rng.choice(["chrono", "chrono", "chrono", "equal", "backwards", "random"])
+    mode = rng.choice(["chrono", "chrono", "chrono", "equal", "backwards", "random", "future"])
     tss = []
     t = max(0, now - rng.choice([0, 1, 100, DAY, DAY * 3, DAY * 40, now]))
     for _ in range(n):
@@ -215,6 +215,8 @@ def rand_history(rng, now, big=False):
             t += rng.choice([0, 1, 60, 3600, DAY - 1, DAY, DAY + 1, DAY * 7])
         elif mode == "equal":
             t += rng.choice([0, 0, 0, 1])
+        elif mode == "future":               # the clock stepped back: the newest entries are ahead of now
+            t = min(U64 - 1, now + rng.choice([0, 1, 60, 3600, DAY, DAY * 7]) + (len(tss) * rng.choice([1, 60, DAY])))
         elif mode == "backwards":
             t = max(0, t + rng.choice([-DAY, -1, 0, 1, DAY, -DAY * 5, 3600]))
         else:
@@ -268,7 +270,8 @@ def lib_cases(rng, n):
                     cur = (base[0] + rng.choice([0, 0, 0, 1]), base[1] + max(0, dc), base[2] + dc, base[3], base[4])
             since = None
             if rng.random() < 0.6:
-                since = rng.choice([0, 1, 60, DAY, now, now + 1, U64 - 1] + [max(0, now - e[0]) + d for e in h for d in (-1, 0, 1) if now - e[0] + d >= 0])
+                since = rng.choice([0, 1, 60, DAY, now, now + 1, U64 - 1] + [max(0, now - e[0]) + d for e in h for d in (-1, 0, 1) if now - e[0] + d >= 0] +
+                                   ([max(0, h[-1][0] - e[0]) for e in h] if h else []))     # distances measured from the latest entry
                 since = min(since, U64 - 1)
             out.append(dict(mode="delta", c=c, now=now, h=h, cur=cur, since=since, tag="delta" + ("-since" if since is not None else "") + ("-big" if not fits_i64(cur, h) else ""),
                             wire="delta\t%s\t%s\t%d\t%s\t%s" % (w_cfg(c), w_opt(since), now, w_tot(cur), w_entries(h))))
